@@ -26,9 +26,10 @@ ASSUMPTIONS = ['element and attribute local names are ASCII NCNames, namespace n
 def run(ctx):
     L = 3 if ctx.quick else 4
     # (a) strings
-    XC.corr_strings(ctx, XC.short_strings(L))
+    XC.corr_strings(ctx, XC.DIRECTED, oracle='rt')
+    XC.corr_strings(ctx, XC.short_strings(L), oracle='rt')
     ctx.exhaustive.append('all strings over %r up to length %d in text, CDATA and attribute position' % (XC.SIG12, L))
-    XC.corr_strings(ctx, (X.rand_text(ctx.rng, 40) for _ in range(2000 if ctx.quick else 40000)))
+    XC.corr_strings(ctx, (X.rand_text(ctx.rng, 40) for _ in range(2000 if ctx.quick else 40000)), oracle='rt')
     # (b)(c)(d) trees + oracle
     n = 600 if ctx.quick else 8000
     for i in range(n):
